@@ -169,15 +169,14 @@ func c01Gate(c *Ctx, m *Module) {
 			}
 			okSrc := f == newUp
 			d := describe(st.Val)
-			if phi, isPhi := st.Val.(*ssa.Phi); isPhi {
-				for _, e := range phi.Edges {
-					de := describe(e)
-					if !(strings.HasPrefix(de, "internal/configstore.Download(") || strings.HasPrefix(de, "alloc:complit")) {
-						okSrc = false
-					}
+			// every value that can be stored (through any number of merges) is a download
+			// result or the empty configuration literal
+			for _, e := range alternatives(st.Val, factsAt(st)) {
+				de := describe(e)
+				if !(strings.HasPrefix(de, "internal/configstore.Download(") || strings.HasPrefix(de, "alloc:complit")) {
+					okSrc = false
+					d = de
 				}
-			} else if !strings.HasPrefix(d, "internal/configstore.Download(") {
-				okSrc = false
 			}
 			r.Check("C01.gate", "uploader.config assigned in "+fname(f), m.Pos(st.Pos()), okSrc, "the run's configuration comes from configstore.Download (or is the empty config when the mode is not on); got "+d)
 		}
